@@ -305,3 +305,31 @@ spec("C15",
      classify=classify_default,
      assumptions=["the Rust documentation-only interpreter (oracle) and the Coq decoder are both written from the module docs: opcode table from iter_ops / regenerated enum order"],
      )
+
+
+def classify_backend(ln):
+    k = re.search(r"kind=(\S+)", ln)
+    b = re.search(r"backend=(\S+)", ln)
+    return (k.group(1) if k else "") + ("-" + b.group(1) if b else "")
+
+
+spec("C11",
+     cmd="c11", count=dict(quick=1500, thorough=30000),
+     vo_targets=["props/C11.vo"],
+     level="proof",
+     rule="60% overflow-prone compositions (square/mul by 1e30/exp/div/recip/ln/sqrt/tan/mod/atan2 chains), 40% general DAGs; points and boxes with finite coordinates up to f32::MAX; every evaluator kind (point, interval, float slice, grad slice, shape-level with a transform matrix) of interpreter and JIT in child processes; a malformed-argument round every 10th case; interpreter interval results compared with the model (value or panic); distinct_nontrivial = distinct arenas",
+     classify=classify_backend,
+     assumptions=["a fault or abort in JIT code is observed through the child process exit status",
+                  "the interval totality theorems over the idealised (unrounded) arithmetic are in IntervalSound (see C03); the f32 instance is tied by correspondence"],
+     )
+
+spec("C03",
+     cmd="c03", count=dict(quick=1500, thorough=30000),
+     vo_targets=["props/C03.vo"],
+     level="proof",
+     rule="random DAGs (1-40 ops, every opcode; 15% of cases include the bit-hash opcodes rand/mix and are not diffed against the model) with EVERY non-constant node exported as an output; boxes: degenerate, tiny, wide, symmetric about zero, scaled by 1e-3..1e3 and up to 3e38; 8 sample points per box (both corners + interior/edges); interpreter and JIT; enclosure checked per node with 0 ulps slack for exact ops and 4 ulps for libm ops, only where the operands are themselves strictly inside their intervals (local obligation); transform matrices (translate / scale / affine / projective) checked at coordinate level; distinct_nontrivial = distinct arenas with > 2 exported nodes",
+     classify=classify_backend,
+     assumptions=["JIT interval results are only required to enclose (they may be wider than the interpreter's)",
+                  "atan2 with both arguments zero is excluded as stated by the property",
+                  "sign of a zero bound is not compared (f32::min/max return either zero)"],
+     )
